@@ -17,7 +17,7 @@ FAMS = {
     'C04': ('lengthof', 'combined'),
     'C05': ('dispatch', 'match'),
     'C06': ('checksum', 'combined'),
-    'C07': None,
+    'C07': None, 'C15': None,
 }
 _LOW = {}
 
@@ -355,6 +355,62 @@ def run_c07_influence(fe, spec, pk, sh, stats):
     return res
 
 
+def run_c15(fe, spec, pk, sh, stats):
+    """the Lua dissector over the canonical encoding: every declared field gets exactly its wire range"""
+    from .fe_lua import LuaError
+    from .names import norm
+    res = []
+    asm = []
+    msg = build_msg(spec, pk, sh, pk.name, asm)
+    rctx = RefCtx(spec)
+    data = ref_enc(rctx, pk, msg)
+    want = [(p, k, o, l) for (p, k, o, l) in sorted(rctx.layout, key=lambda e: (e[2], 0 if e[1] == 'prefix' else 1)) if k != 'prefix']
+    ctl = PathCtl(asm, max_paths=32)
+
+    def run(c):
+        try:
+            adds, final, proto = fe.dissect(c, data)
+        except LuaError as e:
+            return ('luaerror', e.msg, e.line)
+        return ('ok', [a for a in adds if a[0] is not None], final)
+    for r, pc in list(ctl.explore(run)):
+        stats.obligations += 1
+        if isinstance(r, Outcome):
+            res.append(Finding('C15', 'lua', spec.name, pk.name, sh.ident(), 'packet', '*', 'outcome:%s' % r.kind, detail=str(r), cex=first_model(asm + pc, msg)))
+            continue
+        if r[0] == 'luaerror':
+            res.append(Finding('C15', 'lua', spec.name, pk.name, sh.ident(), 'packet', '*', 'lua-error:' + norm_detail(r[1], 70),
+                               detail='%s (line %s of the emitted script)' % (r[1], r[2]), cex=first_model(asm + pc, msg)))
+            continue
+        adds, final = r[1], r[2]
+        bad = None
+        for i, (p, k, o, l) in enumerate(want):
+            if i >= len(adds):
+                bad = (p, 'field-not-attributed', 'declared field %s (bytes %d..%d) is never added to the tree' % (p, o, o + l))
+                break
+            abbr, ao, al, le, label, line = adds[i]
+            fname = p.split('.')[-1].split('[')[0]
+            if not norm(abbr).endswith(norm(fname)):
+                bad = (p, 'field-order', 'tree item %d is %s where field %s is expected' % (i, abbr, p))
+                break
+            if (ao, al) != (o, l):
+                bad = (p, 'range(%+d,%+d)' % ((ao or 0) - o, (al or 0) - l), 'field %s occupies bytes [%d,%d) but is attributed [%s,%s) (script line %s)' % (
+                    p, o, o + l, ao, (ao or 0) + (al or 0), line))
+                break
+            if spec.little() != le and l > 1 and k in ('basic', 'lengthof', 'checksum'):
+                bad = (p, 'byte-order', 'field %s is added with %s' % (p, 'le_add' if le else 'add'))
+                break
+        if bad is None and len(adds) > len(want):
+            bad = ('', 'extra-items', '%d extra tree items after the last declared field' % (len(adds) - len(want)))
+        if bad is None:
+            if final is None or (isinstance(final, int) and final != len(data)):
+                bad = ('', 'final-offset', 'dissector ends at offset %s, message has %d bytes' % (final, len(data)))
+        if bad:
+            desc = construct_of(spec, pk, bad[0]) if bad[0] else 'packet'
+            res.append(Finding('C15', 'lua', spec.name, pk.name, sh.ident(), desc, '*', bad[1], detail=bad[2], cex=first_model(asm + pc, msg)))
+    return res
+
+
 def field_vars(v):
     out = []
     if isinstance(v, list):
@@ -388,6 +444,25 @@ def worker(job):
     stats = pipea.CellStats()
     ntrail = 1 if tier == 'quick' else 2
     fes = {}
+    if prop == 'C15':
+        from .fe_lua import LuaFE
+        fe = LuaFE(spec, e)
+        if fe.rejects:
+            out['rejects']['lua'] = fe.rejects
+        else:
+            out['functions']['lua'] = len(fe.functions_encoded)
+            root = spec.root()
+            for sh in shapes_for(tier, count_alts(spec, root)):
+                out['cells'] += 1
+                try:
+                    out['findings'].extend(f.as_dict() | {'sig': sig(f)} for f in run_c15(fe, spec, root, sh, stats))
+                except Unsupported as u:
+                    out['inconclusive'].append(('lua', '%s/%s: %s' % (root.name, sh.ident(), str(u)[:160])))
+        out['samples'].append({'program': pname, 'dsl': e['dsl'][:600]})
+        out['obligations'] = stats.obligations
+        out['stats'] = core.STATS.as_dict()
+        out['wall'] = time.time() - t0
+        return out
     for lang in LANGS:
         try:
             fe = make_fe(lang, spec, e, low)
@@ -465,7 +540,7 @@ def main(prop, tier, update_known=False):
     progs = family(tier)
     fams = FAMS[prop]
     emits = build.emit_family(progs, tier)
-    low = lower_all(progs, emits, tier)
+    low = lower_all(progs, emits, tier) if prop != 'C15' else {}
     _LOW['emits'] = emits
     _LOW['low'] = low
     sel = [p for p in progs if fams is None or p.family in fams]
@@ -506,6 +581,12 @@ def main(prop, tier, update_known=False):
             bysig.setdefault(f['sig'], []).append(f)
         samples.extend(r['samples'][:1])
     # C07: front-end rejects, missing members and rejected well-formed programs are findings of C07 only
+    if prop == 'C15':
+        for (lang, e), ps in rejects.items():
+            for pn in ps:
+                s = 'C15|lua|%s|-|frontend|%s' % (pn, pipea.norm_detail(e, 100))
+                bysig.setdefault(s, []).append({'property': 'C15', 'lang': lang, 'program': pn, 'packet': '-', 'shape': None, 'signature': s,
+                                                'detail': 'the emitted Lua script does not parse: ' + e, 'cex': None, 'sig': s})
     if prop == 'C07':
         for (lang, e), ps in rejects.items():
             for pn in ps:
